@@ -96,6 +96,10 @@ func parseParam(s string) Param {
 	if i := strings.IndexByte(s, '*'); i >= 0 {
 		p.Kind = PGroup
 		p.Group = s[i+1:]
+		if j := strings.IndexByte(p.Group, '^'); j >= 0 { // "A*g^NS": the group taken as named slice NS
+			p.SliceT = p.Group[j+1:]
+			p.Group = p.Group[:j]
+		}
 		if strings.HasSuffix(p.Group, "~") {
 			p.Soft = true
 			p.Group = p.Group[:len(p.Group)-1]
